@@ -32,14 +32,25 @@ func init() {
 	register(&Property{
 		ID:        "C50",
 		Patterns:  []string{"./sql/rowexec", "./sql/planbuilder"},
-		Technique: "writer/reader option tables over go/types: constructor literals folded with go/constant, planbuilder override sources as AST field paths, field-read coverage of both executors, escape-set coverage of the OUTFILE writer",
+		Technique: "writer/reader option tables over go/types: constructor literals folded with go/constant; planbuilder override predicates read off go/cfg (branch edges and case clauses that dominate an assignment), put into negation normal form and canonicalised (nil/emptiness/length tests, single-assignment locals, conversions), compared between the two sibling builders; carrier wiring, field-read coverage and construction sites (who-may-construct) of both executors; constant/escape-letter tables of the NULL representation; escape-set coverage of the OUTFILE writer",
 		Explanation: "SELECT ... INTO OUTFILE (plan.Into, written by rowexec.buildInto) and LOAD DATA (plan.LoadData, read by rowexec's loadDataIter) share six format options. Decided: " +
 			"(D1) plan.NewInto and plan.NewLoadData initialise every shared option to the same constant value; (D2) the planbuilder overrides each option of both nodes from the same fields of the parsed statement " +
 			"(same set of AST field paths in the assigned value and its guarding conditions); (D3) every option is read by both executors (for LOAD DATA also the iterator field that carries it), so an option " +
 			"that one side honours is not ignored by the other; (E1) the OUTFILE writer escapes, inside string values, every option string that the LOAD DATA reader treats as special " +
-			"(escape character, enclosure, field terminator, line terminator), prefixing it with the escape string. A violated instance means that rows exported with some option combination are read back differently.",
-		NotCovered: "that escaping and unescaping are inverse on every value (only the set of escaped delimiters is decided), NULL representation, character sets, DUMPFILE, SET/user-variable handling of LOAD DATA, " +
-			"guards that only differ in how they compare (e.g. TERMINATED BY '' handling)",
+			"(escape character, enclosure, field terminator, line terminator), prefixing it with the escape string; " +
+			"(O1) per option, the condition under which the user's text replaces the default and the value that is stored are the same for both nodes: the branch conditions that dominate each override assignment " +
+			"(minus those that already hold where the node is created) are compared in canonical form - specified (non-nil), specified-and-non-empty, flag set - so `ESCAPED BY ''` (no escaping) cannot be honoured by one statement and " +
+			"treated as 'not specified' by the other; a non-emptiness test on an option whose default is the empty string, and `X = flag` for `if flag { X = true }`, are recognised as neutral; " +
+			"(O2) every iterator field that carries an option is initialised from one option, and from its namesake if it is named after an option (no cross-wiring of e.g. enclosure and escape); " +
+			"(O3) NULL representation: the text the writer emits for a nil value under each emission condition (the word NULL with escaping disabled, <escape>N otherwise) is mapped to NULL by the reader (word compared against the field; " +
+			"escape-letter switch with an arm that yields such a word), the reader interprets escape letters under every option condition under which the writer relies on them, and the reader maps no other bare word to NULL " +
+			"where the writer uses the escape letter; (O4) every option value that the planbuilder rejects for LOAD DATA is rejected for INTO OUTFILE too (no file can be written with options its reader refuses); " +
+			"(O5) neither executor hard-codes a non-empty default delimiter (tab, backslash, newline) instead of using the option; (O6) plan.Into nodes with an output file and plan.LoadData nodes are only created " +
+			"where every option is then overridden from the statement, and literals of the two types occur only in their constructors (copies keep the options). " +
+			"A violated instance means that rows exported with some option combination are read back differently (or cannot be read back) with the same options.",
+		NotCovered: "that escaping and unescaping are inverse on every value (only the set of escaped delimiters, the NULL marker and the option plumbing are decided): enclosure doubling, multi-character delimiters inside values, " +
+			"embedded line terminators; the role in which each executor uses an option beyond the namesake check (a consistent swap in both builders is not seen); overrides moved into a helper function on one side only are compared as " +
+			"opaque calls; character sets, DUMPFILE, SET/user-variable handling of LOAD DATA, LINES TERMINATED BY '' (the reader cannot split on an empty terminator)",
 		Run: func(c *Ctx) {
 			runC50(c, real, 6)
 			runC50Opts(c, real, c50Floors{o1: 6, o2: 5, o3: 3, o4: 2, o5: 9, o6: 4})
